@@ -61,8 +61,8 @@ def main():
     results = {}
 
     def worker(k):
-        wt = "/tmp/sr-wt-%d" % k
-        bd = "/verif/build/alt-sr%d" % k
+        wt = "/tmp/sr-wt-%d-%d" % (os.getpid(), k)
+        bd = "/verif/build/alt-sr%d-%d" % (os.getpid(), k)
         sh("git -C /repo worktree remove --force %s" % wt)
         sh("rm -rf %s" % wt)
         rc, out, _ = sh("git -C /repo worktree add --detach -q %s %s" % (wt, head))
